@@ -63,3 +63,12 @@ def fold_unary_all(op):
         if fold_unary_table(op, t) == 0:
             return 0
     return 1
+
+
+def opt_program_small(tids):
+    from vlib import compharness as CH
+    for tid in tids:
+        if CH.check_opt_program_small(tid) != 1:
+            print('failed:', CH.FAILED[-1])
+            return 0
+    return 1
